@@ -112,7 +112,7 @@ func lemmaT2RejectsOtherTypes(r *BasicPublicTokenRequest, b []byte) {
 //@ spec
 func specStateOK(s BasicPublicTokenRequestState) bool {
 	return s.verificationKey != nil && s.request != nil && VStKey(s.verifier) == s.verificationKey &&
-		VStMsg(s.verifier) == string(s.tokenInput) && len(s.tokenInput) == 98 && BlindOK(s.verificationKey, VStR(s.verifier))
+		VStMsg(s.verifier) == string(s.tokenInput) && BlindOK(s.verificationKey, VStR(s.verifier))
 }
 
 //@ func (c BasicPublicClient) CreateTokenRequest(challenge []byte, nonce []byte, tokenKeyID []byte, tokenKey *rsa.PublicKey) (s BasicPublicTokenRequestState, err error)
@@ -148,10 +148,12 @@ func specStateOK(s BasicPublicTokenRequestState) bool {
 //@ let in = string(s.tokenInput)
 //@ let sig = BRSAFinal(s.verificationKey, VStR(s.verifier), string(blindSignature))
 //@ ensures[C01 C02 C11] err == nil ==> len(blindSignature) == RSAModLen(s.verificationKey) && PSSVerify(s.verificationKey, SHA384(in), sig)
-//@ ensures[C01 C02 C11] err == nil ==> tokens.SpecTokenInput(token.TokenType, string(token.Nonce), string(token.Context), string(token.KeyID)) == in
-//@ ensures[C01 C02 C11] err == nil ==> string(token.Authenticator) == sig && len(token.Authenticator) == Nk
-//@ ensures[C01 C02 C11] len(blindSignature) == RSAModLen(s.verificationKey) && RSAModLen(s.verificationKey) == Nk && PSSVerify(s.verificationKey, SHA384(in), sig) ==> err == nil
+//@ ensures[C01 C02 C11] err == nil && len(s.tokenInput) == 98 ==> tokens.SpecTokenInput(token.TokenType, string(token.Nonce), string(token.Context), string(token.KeyID)) == in
+//@ ensures[C01 C02 C11] err == nil && len(s.tokenInput) == 98 ==> string(token.Authenticator) == sig && len(token.Authenticator) == Nk
+//@ ensures[C02] err == nil ==> PSSVerify(s.verificationKey, SHA384(tokens.SpecTokenInput(token.TokenType, string(token.Nonce), string(token.Context), string(token.KeyID))), string(token.Authenticator))
+//@ ensures[C01 C02 C11] len(s.tokenInput) == 98 && len(blindSignature) == RSAModLen(s.verificationKey) && RSAModLen(s.verificationKey) == Nk && PSSVerify(s.verificationKey, SHA384(in), sig) ==> err == nil
 //@ assigns spare(s.tokenInput)
+//@ alloc 16*len(blindSignature) + 16*len(s.tokenInput) + 8192
 //@ end
 
 // C01 (type 0x0002): honest issuance over the wire, for every 2048-bit key.
